@@ -8,6 +8,26 @@ claim('C12',
       'Decides the structural clauses that make header fallback possible: checksum covers every header field (both formats); no assertion/panic on header bytes before the checksum test of the same header; a header is selected only behind its own validity test and both can be selected; images sealed last; previous snapshot pages kept pending. Does not decide checksum collision resistance or the rest of open.',
       TB + 'Assumes damage confined to one header page.',
       'taint/control-dependence rule over MIR, field-coverage table rule, dominance rules', '§5 C12')
-for p in ('C03','C04','C05','C06','C07','C08','C09','C10','C11','C13','C14','C15','C16'):
+for p in ('C05','C06','C07','C08','C13','C14','C15','C16'):
     na(p, 'check under construction in this round (rules designed in DESIGN.md §5; not yet registered)')
+claim('C03',
+      'Decides the bookkeeping clauses that pin a reader snapshot for all histories: release bound read from / tested against the open-reader registry inside its critical section; readers register exactly the id of the Meta they keep; the registry is mutated only by order-preserving single-element operations (push is followed by sort); Drop removes only the own entry of read-only transactions; every transaction owns an Arc of an immutable map and no pointer into the map is made mutable; free-set discipline. Does not decide the comparison inside release or reuse arithmetic.',
+      TB + 'Assumes transaction ids are monotone.',
+      'lockset + data/control-dependence rules over MIR, who-may-mutate allow-list, type facts', '§5 C03')
+claim('C04',
+      'Decides the lock-scope part of isolation for all schedules: one exclusively held lock covers the reader header read, its registration and the writer release decision (atomic begin, header read once); publish order (data synced before header, free list only behind the header write); writer snapshots after owning the writer lock. Does not decide linearizability or page-cache coherence.',
+      TB + 'Assumes std Mutex semantics and write(2)/MAP_SHARED coherence.',
+      'lockset analysis (must-held sets at sites, constant-specialised on the writable flag) + path rules on the commit trace', '§5 C04, §3')
+claim('C09',
+      'Decides mutual exclusion, read-after-lock and lock order as lockset facts for all schedules: the writable lock variant carries an exclusive blocking guard taken in begin and held on return, constructed nowhere else; all commit file operations go through the File in that guard; writer reads header/free list after the lock; nothing published after the lock holder is dropped; the lock-order graph (closed over the call graph, all public entries and Drop impls) is acyclic; readers never touch the writer lock. Does not decide progress under OS scheduling.',
+      TB + 'Assumes each thread holds at most one transaction.',
+      'lockset analysis, lock-order graph cycle check, provenance rules over MIR', '§5 C09, §3')
+claim('C10',
+      'Decides the links of the reuse chain (each, when cut, makes the file grow without bound): release on every writer begin on the list the transaction allocates from; reuse before extending the high-water mark; persisted list covers free and pending pages; reload through the chosen header; publication on every exit after the header write; readers deregister under the id they registered. Does not decide the plateau itself.',
+      TB,
+      'must-pass-through / dominance / dependence rules over MIR', '§5 C10')
+claim('C11',
+      'Decides error discipline and publication order of commit for every fallible call at once: every Result reachable from commit is propagated (never unwrapped, discarded or turned into success); the shared free list is replaced only behind the header write and on every exit after it; the error edge of the header write re-reads the header; the map is replaced only after successful growth and mapping; plus the C02 ordering obligations. Does not decide kernel behaviour after failed fsync or later transactions.',
+      TB + 'Assumes failures are reported through Result values.',
+      'error-propagation rule over all call sites reachable from commit + path rules on the inlined commit trace', '§5 C11, §2')
 na('C01', 'equivalence with a reference ordered map over all histories is a statement about run-time values (search indices, split points, page ids); no path-independent code shape is a necessary condition beyond clauses owned by C05-C08, C10, C15 (DESIGN.md §5 C01, §8)')
